@@ -214,6 +214,17 @@ func scribbleEmpties(v reflect.Value, depth int) {
 			v.Set(reflect.Append(v, reflect.Zero(v.Type().Elem())))
 			return
 		}
+		if v.Type().Elem().Kind() == reflect.Uint8 {
+			// a decoded byte string belongs to the caller: edited in place and appended to
+			b := v.Bytes()
+			for i := range b {
+				b[i] ^= 0xFF
+			}
+			if cap(b) > len(b) {
+				_ = append(b, 0xEE)
+			}
+			return
+		}
 		for i := 0; i < v.Len(); i++ {
 			scribbleEmpties(v.Index(i), depth+1)
 		}
